@@ -96,6 +96,9 @@ func (c *Chooser) choose(p point) int {
 	ch := 0
 	if pos < len(c.prefix) {
 		ch = c.prefix[pos]
+		if ch >= p.n && c.ex.Lenient {
+			ch = p.n - 1
+		}
 		if ch >= p.n {
 			panic(InfraError{fmt.Sprintf("replay divergence at point %d (%s): "+
 				"choice %d but menu has %d entries; prefix=%v; the execution that generated this prefix saw: %s; events so far: %v", pos,
@@ -234,6 +237,12 @@ type Explorer struct {
 	Reset func()
 	// Trace prints every step as it happens (replays).
 	Trace bool
+	// Lenient is for free-running passes (race detector builds without
+	// the determinised runtime): a replayed prefix that no longer fits
+	// the menus is clamped instead of being an error, nothing is audited
+	// or confirmed, and violations of the harness oracles are only
+	// counted, not reported (the schedules are not reproducible).
+	Lenient bool
 
 	body func(c *Chooser)
 
@@ -299,6 +308,7 @@ func FromEnv(harness, config string) *Explorer {
 		e.TimeCap = time.Duration(f * float64(time.Second))
 	}
 	e.ExecCap = int64(envInt("VFX_EXECCAP", 0))
+	e.Lenient = os.Getenv("VFX_LENIENT") != ""
 	e.Until = Deadline()
 	return e
 }
@@ -361,7 +371,7 @@ func (e *Explorer) RunOne(prefix []int, audit bool) (x *Exec) {
 		}()
 		e.body(c)
 	}()
-	if len(x.Choices) < len(prefix) && !x.Pruned && x.Viol == nil {
+	if len(x.Choices) < len(prefix) && !x.Pruned && x.Viol == nil && !e.Lenient {
 		panic(InfraError{fmt.Sprintf("replay divergence: execution ended after "+
 			"%d choices but prefix has %d: %v", len(x.Choices), len(prefix), prefix)})
 	}
@@ -602,6 +612,15 @@ func (e *Explorer) account(x *Exec) {
 			r.Samples = append(r.Samples, Sample{Index: n,
 				Choices: x.Choices, Events: capEvents(x.Events), Obs: x.Obs})
 		}
+	}
+	if e.Lenient {
+		if x.Viol != nil {
+			if r.Extra == nil {
+				r.Extra = map[string]int64{}
+			}
+			r.Extra["oracle_verdicts_ignored_in_free_running_pass"]++
+		}
+		return
 	}
 	if e.AuditEvery > 0 && n%e.AuditEvery == 1 && x.Viol == nil {
 		y := e.RunOne(x.Choices, true)
